@@ -2,7 +2,6 @@
 # SPDX-License-Identifier: LGPL-3.0-only
 from enum import StrEnum
 
-from rzilcompiler.Transformer.Pures.CompareOp import CompareOp
 from rzilcompiler.Transformer.ValueType import ValueType, VTGroup
 from rzilcompiler.Transformer.Pures.Pure import Pure
 from rzilcompiler.Transformer.Pures.PureExec import PureExec
@@ -28,9 +27,7 @@ class BooleanOp(PureExec):
     def il_exec(self):
         a = (
             self.ops[0].il_read()
-            if (
-                isinstance(self.ops[0], BooleanOp) or isinstance(self.ops[0], CompareOp)
-            )
+            if self.ops[0].value_type.group & VTGroup.BOOL
             else f"NON_ZERO({self.ops[0].il_read()})"
         )
         if self.op_type == BooleanOpType.INV:
@@ -38,9 +35,7 @@ class BooleanOp(PureExec):
 
         b = (
             self.ops[1].il_read()
-            if (
-                isinstance(self.ops[1], BooleanOp) or isinstance(self.ops[1], CompareOp)
-            )
+            if self.ops[1].value_type.group & VTGroup.BOOL
             else f"NON_ZERO({self.ops[1].il_read()})"
         )
         if self.op_type == BooleanOpType.AND:
